@@ -1152,11 +1152,13 @@ func (m *Manager) UnconfirmedParents(txn types.Transaction) []types.Transaction 
 
 	parentMap, _ := m.computeParentMap()
 	var parents []types.Transaction
+	var positions []int
 	seen := make(map[int]bool)
 	check := func(id types.Hash256) {
 		if index, ok := parentMap[id]; ok && !seen[index] {
 			seen[index] = true
 			parents = append(parents, m.txpool.txns[index])
+			positions = append(positions, index)
 		}
 	}
 	addParents := func(txn types.Transaction) {
@@ -1185,11 +1187,9 @@ func (m *Manager) UnconfirmedParents(txn types.Transaction) []types.Transaction 
 			break
 		}
 	}
-	// reverse so that parents always come before children
-	for i := 0; i < len(parents)/2; i++ {
-		j := len(parents) - 1 - i
-		parents[i], parents[j] = parents[j], parents[i]
-	}
+	// the pool is kept in dependency order, so ordering the parents by their
+	// position puts every parent before its children
+	sort.Sort(byPosition[types.Transaction]{parents, positions})
 	return parents
 }
 
@@ -1205,11 +1205,13 @@ func (m *Manager) V2TransactionSet(basis types.ChainIndex, txn types.V2Transacti
 	// get the transaction's parents
 	_, parentMap := m.computeParentMap()
 	var parents []types.V2Transaction
+	var positions []int
 	seen := make(map[int]bool)
 	check := func(id types.Hash256) {
 		if index, ok := parentMap[id]; ok && !seen[index] {
 			seen[index] = true
 			parents = append(parents, m.txpool.v2txns[index].DeepCopy())
+			positions = append(positions, index)
 		}
 	}
 	addParents := func(txn types.V2Transaction) {
@@ -1238,11 +1240,9 @@ func (m *Manager) V2TransactionSet(basis types.ChainIndex, txn types.V2Transacti
 			break
 		}
 	}
-	// reverse so that parents always come before children
-	for i := range len(parents) / 2 {
-		j := len(parents) - 1 - i
-		parents[i], parents[j] = parents[j], parents[i]
-	}
+	// the pool is kept in dependency order, so ordering the parents by their
+	// position puts every parent before its children
+	sort.Sort(byPosition[types.V2Transaction]{parents, positions})
 
 	// update the transaction's basis to match tip; the parents were taken from
 	// the pool, so their proofs are already valid for the tip, not for basis
@@ -1251,6 +1251,19 @@ func (m *Manager) V2TransactionSet(basis types.ChainIndex, txn types.V2Transacti
 		return types.ChainIndex{}, nil, fmt.Errorf("failed to update transaction set basis: %w", err)
 	}
 	return m.tipState.Index, append(parents, txns...), nil
+}
+
+// byPosition sorts pool transactions by their position in the pool.
+type byPosition[T any] struct {
+	txns      []T
+	positions []int
+}
+
+func (s byPosition[T]) Len() int           { return len(s.txns) }
+func (s byPosition[T]) Less(i, j int) bool { return s.positions[i] < s.positions[j] }
+func (s byPosition[T]) Swap(i, j int) {
+	s.txns[i], s.txns[j] = s.txns[j], s.txns[i]
+	s.positions[i], s.positions[j] = s.positions[j], s.positions[i]
 }
 
 func (m *Manager) checkTxnSet(txns []types.Transaction, v2txns []types.V2Transaction) (bool, error) {
